@@ -23,6 +23,11 @@ CHECKS = {
     technique='TLA+ spec Partition.tla: TLC interleaving model of histogram/prefix-sum/scatter + TLC-enumerated inputs replayed on the compiled partition_parallel + schedule replay on the real source',
     text='TLC explores all interleavings of T<=3 workers over every input of length <=4/5 (lattice incl. stripe boundaries, duplicates, BoxSize) and proves no double write, in-bounds pointers, correct starts and a stripe-ordered permutation (three broken variants rejected). Every enumerated input is run through the compiled partition_parallel across coord x dtype x weights x sort x 1..16 threads and compared with the spec (starts, stripe members, weight alignment, input unchanged); a TLC-validated twin judges random inputs up to N=3000; conflict-directed and random schedules are replayed on the real source.',
     note='Dyadic boxes make the stripe key exact; for non-dyadic boxes a particle on a stripe boundary is accepted in either neighbour.'),
+ 'C06': dict(
+    design='DESIGN.md §5 C06',
+    technique='TLA+ spec MassAssign.tla: TLC proves the code-shaped deposit (round, three weights, wraps) equals the declarative periodic kernel on the whole lattice and emits the expected 1-D deposits; real kernels compared exactly on dyadic inputs',
+    text='TLC checks, for every lattice position x offset x grid size, that the algorithm as coded equals the periodic TSC/CIC kernel (A=D), conserves mass, is non-negative, rolls under whole-cell shifts and keeps every index in bounds; it emits the 1-D deposit table from which the separable 3-D expectation is built. _tsc_scatter, tsc_parallel (threads, partitions, coord, sort, wrap), cic_serial (3-D and 2-D) and get_field are compared with it by exact equality on single particles at every lattice point of every axis, multi-particle weighted sets accumulated into pre-filled grids, out-of-range positions and rolls.',
+    note='Lattice of 1/4 cell and offsets within half a cell; dyadic boxes (anisotropic shapes restricted to g_i/Box dyadic); TSC on a 3-D array with a one-cell axis is outside the documented domain.'),
 }
 NA = [
  dict(property_id='C18', reason='Pure real-valued geometry (square roots, sines, cross products) on a fixed finite domain of 65 340 codes: no state, order, schedule or index structure for a TLA+ transition system, and orthonormality/coverage are floating-point facts outside TLC integer arithmetic; an exhaustive numeric sweep would be a different technique (DESIGN.md §7).'),
